@@ -275,7 +275,9 @@ let codec_case (line : string) : string =
   | "enc" -> (match encode (term_of_string cmp_owned rest) with
               | EOk b -> "ok " ^ hex_of_bytes b ^ " w=same" | EErr e -> "err " ^ eerr_str e)
   | "rt" ->
-      (match encode (term_of_string cmp_owned rest) with
+      let tin = term_of_string cmp_owned rest in
+      "in=" ^ term_str tin ^ " ; " ^
+      (match encode tin with
        | EErr e -> "enc=err:" ^ eerr_str e
        | EOk b ->
          let cfg = mk_cfg owned_arms [] [] in
